@@ -25,7 +25,8 @@ def main(argv=None):
     sys.path.insert(0, repo)
     logging.disable(logging.CRITICAL)
 
-    from mc import core
+    from mc import core, sleeplog
+    sleeplog.install()
     prop = args.prop.upper()
     try:
         import pjrpc
